@@ -7,7 +7,8 @@
            sleep(retryInterval) }
 
    Only Sleep advances the clock.  No proofs here. *)
-From Coq Require Import NArith List Bool.
+From Coq Require Import NArith List Bool String.
+From RQ Require Export Lib.C34_Sched Model.C34.
 Import ListNotations.
 Local Open Scope N_scope.
 
@@ -46,7 +47,24 @@ Inductive case :=
    whether Close succeeded, whether it took the gate promptly after the release (for a successful
    close; the driver's threshold is 1 s, the model's prediction is "within 100 ms"), and for a
    failed close after how many ms it gave up *)
-| CaseClose (src_timeout src_interval hold : N) (ok prompt : bool) (gave_up : N).
+| CaseClose (src_timeout src_interval hold : N) (ok prompt : bool) (gave_up : N)
+(* the snapshot gate of a real Store while another owner holds it: snapshot attempts, results,
+   Owner() after each *)
+| CaseGate (l : list (cas_act * obs * string)).
+
+(* The gate itself is Model.C34's CheckAndSet (cas_step_obs), used with its caller discipline
+   cas_enabled: only the caller of a successful Begin calls End.  A recorded gate history (calls,
+   results, Owner() afterwards) must be a run of that model in which every End is enabled - an End
+   without a matching successful Begin (e.g. by a refused snapshot attempt) shows up as a wrong
+   owner after the step. *)
+Fixpoint gate_exec (s : cas) (l : list (cas_act * obs * string)) : bool :=
+  match l with
+  | [] => true
+  | (a, o, ow) :: r =>
+      cas_enabled s a &&
+      let '(s1, o1) := cas_step_obs s a in
+      obs_eqb o1 o && String.eqb (c_owner s1) ow && gate_exec s1 r
+  end.
 
 (* observed time t_obs is the model's poll time t up to half an interval *)
 Definition near (t t_obs interval : N) : bool :=
@@ -67,4 +85,5 @@ Definition check_case (c : case) : bool :=
       | TimedOut t => negb ok && (t <=? gave_up + 1000) && (gave_up <=? t + 1000)
       | OutOfFuel => false
       end
+  | CaseGate l => gate_exec cas_init l
   end.
